@@ -128,7 +128,7 @@ def P(pid):
             ('RF-A option-normalisation blind entry points', lambda c: rf_consts.rule_option_normalisation(c, BLIND_ENTRIES), 14),
             ('RF-B blind interface constants', lambda c: rf_consts.rule_interface_constants(c, BLIND_ENTRIES), 20),
             ('RF-O production/mock twin agreement', rf_rand.rule_cfg_twins, 8),
-            ('RF-P accumulation loops (commit / blind B)', lambda c: rf_codec.rule_loop_coverage(c, fns=['bbsplus::commitment::core_commit', 'bbsplus::commitment::core_commit_verify', 'bbsplus::blind::calculate_b']), 6),
+            ('RF-P accumulation loops (commit / blind B)', lambda c: rf_codec.rule_loop_coverage(c, fns=['bbsplus::commitment::core_commit', 'bbsplus::commitment::core_commit_verify', 'bbsplus::blind::calculate_b']), 3),
             ('RF-G2 role positions (commit)', rf_rand.rule_role_projection, 6),
             ('RF-T size thresholds (uniform behaviour in L / lengths)', rf_frame.rule_size_thresholds, 3),
             ('RF-B index translation agreement', rf_codec.rule_index_translation, 2),
